@@ -1585,7 +1585,7 @@ func seqProp(id, rule string, gen func(*simrt.Rand, string) any, owners ...strin
 func init() {
 	seqProp("C07", "one case = a sequential history of 10-40 name-taking calls (LOOKUP, CREATE in every mode, MKDIR, SYMLINK name and target, REMOVE, RMDIR, RENAME both names, MNT path, READLINK) whose names are drawn from all strings of length 1..4 over the adversarial alphabet {a . / \\ NUL space 0x80}, 255/256-byte names, long multi-component strings and escaping targets, over a random tree incl. a pre-existing escaping symlink (60%), or a C01-C04 workload (40%); monitor on every backend call of every operation: path absolute and normalized and equal to a handle's path or that path plus one validated component; no Symlink with absolute or '..' target; no READLINK reply with a relative '..' target; invalid names never succeed; 10% of the cases are the concurrent class: C29's workload (2-4 clients on separate connections, shared directories and handles, renames, removes, writes, peeks at each other's names, caches enabled with hour-long lifetimes, optional backend stalls and errors, every interleaving decided by the seeded scheduler) followed, once every request has been answered, by a fresh client that is not needed: every backend call made during the concurrent phase is checked for an absolute, normalized path; non-trivial = at least one operation; distinct by event digest",
 		mixGen(genC07, 60, "C07"), "C07.")
-	seqProp("C11", "one case = a history of 8-28 CREATE/MKDIR/SYMLINK/SETATTR calls with sattr3 uid/gid set to foreign ids, issued under drawn credentials (boundary uids/gids, 0-16 aux gids, AUTH_NONE) and squash modes in mixed case, per-operation credential switches; monitor on the backend call log: every Chown/Lchown issued for a request whose effective uid (reference squash function) is not 0 carries exactly the caller's effective uid/gid; after a successful CREATE/MKDIR/SYMLINK the new inode's owner in the backend is the caller's effective identity; a quarter of the cases inject backend errors (chtimes, chmod, lstat, stat, truncate, close - not the chown itself) so that recovery paths run under the same monitor; a fifth of the cases are the concurrent class: one SETATTR from an effective root assigning uid and/or gid and 1-3 SETATTRs from callers that are not root (mode, times or size; 30% also naming foreign ids) for ONE object at the same time, each on its own connection, 2-4 workers, 0-2 backend calls stalled 0.2-80 ms, start offsets 0-3 ms, every lock/unlock/channel/network interleaving decided by the seeded scheduler - every Chown the backend is asked for carries the ids the root request set, and once the root request is answered OK they are the owner on record; non-trivial = at least one operation; distinct by event digest",
+	seqProp("C11", "one case = a history of 8-28 CREATE/MKDIR/SYMLINK/SETATTR calls with sattr3 uid/gid set to foreign ids, issued under drawn credentials (boundary uids/gids, 0-16 aux gids, AUTH_NONE) and squash modes in mixed case, per-operation credential switches; monitor on the backend call log: every Chown/Lchown issued for a request whose effective uid (reference squash function) is not 0 carries exactly the caller's effective uid/gid; after a successful CREATE/MKDIR/SYMLINK the new inode's owner in the backend is the caller's effective identity; a quarter of the cases inject backend errors (chtimes, chmod, lstat, stat, truncate, close - not the chown itself) so that recovery paths run under the same monitor; a fifth of the cases are the concurrent class: one SETATTR from an effective root assigning uid and/or gid and 1-3 SETATTRs from callers that are not root (mode, times or size; 30% also naming foreign ids) for ONE object at the same time, each on its own connection, 2-4 workers, 0-2 backend calls stalled 0.2-80 ms, start offsets 0-3 ms, every lock/unlock/channel/network interleaving decided by the seeded scheduler - every Chown the backend is asked for carries the ids the root request set, and once the root request is answered OK they are the owner on record; in 30% of the concurrent cases nobody is root: the object is removed first (the clients keep their handles for the name) and a CREATE of the same name by one caller races with the others' SETATTRs through the old handles - the only owner anybody may record, and the owner on record afterwards, is the creator's own identity; non-trivial = at least one operation; distinct by event digest",
 		genC11, "C11.")
 	seqProp("C12", "one case = a history in which root SETATTRs mode (all 12 bits) and owner of files and directories and callers in drawn owner/group/aux-group/other relations (and uid 0) issue ACCESS with all 64 masks, with the attribute TTL and think time drawn (so ACCESS is answered from cached or fresh attributes) and read-only switched on at runtime in 30% of runs; oracle on every ACCESS reply of every workload: granted subset of requested and equal to the UNIX owner/group/other rule applied to the mode/uid/gid carried in that reply and the caller's effective identity, LOOKUP/DELETE only on directories, no MODIFY/EXTEND/DELETE when read-only; 20% of the cases make a SETATTR fail half-way and then the backend's lstat fail for good: an ACCESS that still answers NFS3_OK must have decided on the object's real mode and owner; stratified sampling of the 4096 x classes x 64 x 2 space (not exhausted); non-trivial = at least one ACCESS; distinct by event digest",
 		mixGen(genC12, 80, "C12"), "C12.")
